@@ -160,7 +160,10 @@ def cdata_safe_names(evs, v11_possible=True):
     return [n for n in element_names(evs) if n not in bad]
 
 
-FX = [False]     # set by run(): True when /repo's writeCDATA is the repaired one (GenOutopt.cdata_sets_prevtext)
+# set by run() from the regenerated facts: which variant of the three repaired functions /repo has
+FX = [False]     # writeCDATA/charactersRaw set m_isprevtext (GenOutopt.cdata_sets_prevtext): class K-C08-1 is gone
+TX = [False]     # FormatterToText raises for a character outside the encoding (text_method_checks_representability): class K18 is gone
+SX = [False]     # XalanOutputStream keeps a trailing high surrogate back (stream_keeps_high_surrogate): class K-C08-2 is gone
 
 
 def guard_ok(evs):
@@ -418,7 +421,7 @@ PY_CODEC = {"UTF-8": "utf-8", "UTF-16": "utf-16-le", "ISO-8859-1": "latin-1", "U
 def text_expected(enc, evs):
     """(bytes or None when some character is not representable, straddle) — Python's codecs, no model"""
     units = [u for e in evs if e[0] in ("T", "C") for u in e[1]]
-    straddle = enc == "UTF-8" and any(0xD800 <= u <= 0xDBFF and i % 512 == 511 for i, u in enumerate(units))
+    straddle = (not SX[0]) and enc == "UTF-8" and any(0xD800 <= u <= 0xDBFF and i % 512 == 511 for i, u in enumerate(units))
     try:
         s = b"".join(u.to_bytes(2, "little") for u in units).decode("utf-16-le")
         b = s.encode(PY_CODEC[enc])
@@ -432,8 +435,8 @@ def text_expected(enc, evs):
 def representable_only(enc, evs):
     """the guard of text_method_encoding_partial: every unit representable in the encoding (class of K18 otherwise)"""
     top = {"ISO-8859-1": 0xFF, "US-ASCII": 0x7F}.get(enc)
-    if top is None:
-        return evs
+    if top is None or TX[0]:
+        return evs        # repaired: an unrepresentable character must raise an error, and the streams check that
     return [("T", [u if u <= top else 0x20 + u % 0x5F for u in e[1]]) if e[0] in ("T", "C") else e for e in evs]
 
 
@@ -449,7 +452,7 @@ def gen_t_cases(ctx, n):
         cases.append(("text:tree", enc, evs))
     # stream-buffer boundary (512 units): BMP characters and pairs on both sides of it, never a pair across it
     for enc in ENCODINGS:
-        for pad in (509, 510, 512, 513, 1022, 1024):
+        for pad in (509, 510, 512, 513, 1022, 1024) + ((511, 1023, 2047, 4095) if SX[0] else ()):
             for sp in ([0xE9], [0x20AC], [0xD83D, 0xDE00], [0x3042]):
                 cases.append(("text:boundary", enc, representable_only(enc, [("S", u16("r"), []), ("T", u16("a") * pad + sp + u16("z")), ("E", u16("r"))])))
     return cases
@@ -1116,32 +1119,43 @@ def corpus_lines(ctx):
 
 
 def run_corpus(ctx, impl, known_keys):
-    """stored replays of the known findings: each must still fail the way its finding says (else the finding is stale)"""
-    hits = {}
+    """stored replays: for a key that is still a known finding the replay must still fail the way the finding says
+    (hit counted, KNOWN-FINDING printed); once the finding is repaired the replay is a regression seed and a failure
+    is an oracle failure like any other"""
+    hits, orc = {}, []
     for fn, line in corpus_lines(ctx):
         rc, res, raw = core.run_lines(impl, line + "\n", timeout=300)
         t = line.split()
         cid = t[1]
         r_ = res.get(cid)
+        key, what = None, None
         if fn.startswith("kc08_1"):
+            key = "K-C08-1"
             evs = S4.parse_script(t[9:])
-            bad = True
+            what = "serialization failed: %r" % (r_ and r_[:80],)
             if r_ and r_.startswith("ok:") and "|" in r_:
                 rel = ws_relation(parse_tokens(S4.expected_tree(evs)), parse_tokens(r_.split("|", 1)[1]), True)
-                bad = rel is not None
-            if bad:
-                hits["K-C08-1"] = hits.get("K-C08-1", 0) + 1
+                what = None if rel is None else "parsed result differs from the result tree: " + rel
         elif fn.startswith("kc08_2"):
+            key = "K-C08-2"
+            exp = text_expected(t[2], S4.parse_script(t[3:]))[0]
             if r_ is None or not r_.startswith("ok:"):
-                hits["K-C08-2"] = hits.get("K-C08-2", 0) + 1
+                what = "text output failed with %r although every character is representable" % (r_ and r_[:80],)
+            elif bytes.fromhex(r_[3:]) != exp:
+                what = "text output is not the concatenated text"
         elif fn.startswith("k18"):
-            evs = S4.parse_script(t[3:])
-            exp, _ = text_expected(t[2], evs)
+            key = "K18"
+            exp = text_expected(t[2], S4.parse_script(t[3:]))[0]
             if exp is None and r_ and r_.startswith("ok:"):
-                hits["K18"] = hits.get("K18", 0) + 1
+                what = "a character the encoding cannot represent was written as %s with no error" % r_[3:][-40:]
+        if what:
+            if key in known_keys:
+                hits[key] = hits.get(key, 0) + 1
+            else:
+                orc.append({"case": line, "base": "", "what": what + "  (stored replay corpus/C08/%s)" % fn, "known": None})
         ctx.cov["evaluations"] += 1
         ctx.count("corpus:" + fn)
-    return hits
+    return hits, orc
 
 
 def run(ctx):
@@ -1175,7 +1189,9 @@ def run(ctx):
         return ctx.finish(LEVEL)
     try:
         import gen_outopt
-        FX[0] = "OSetPrevText true" in gen_outopt.gen_outopt()[1]["ops_writeCDATA"]
+        gfacts = gen_outopt.gen_outopt()[1]
+        FX[0], TX[0], SX[0] = gfacts["cdata_sets_prevtext"], gfacts["text_method_checks_representability"], gfacts["stream_keeps_high_surrogate"]
+        ctx.notes["repo_variant"] = {"cdata_sets_prevtext": FX[0], "text_method_checks_representability": TX[0], "stream_keeps_high_surrogate": SX[0]}
         html_names = gen_outopt.html_names()
     except Exception as ex:
         html_names = []
@@ -1187,7 +1203,8 @@ def run(ctx):
     n_trees, n_var, n_t, n_h, n_z = (260, 5, 240, 160, 60) if not thorough else (6000, 8, 6000, 4000, 1200)
 
     corr, orc = [], []
-    hits = run_corpus(ctx, impl, known_keys)
+    hits, corpus_orc = run_corpus(ctx, impl, known_keys)
+    orc += corpus_orc
 
     def stage(n_trees, n_var, n_t, n_h, n_z, boundary=True):
         groups = gen_x_cases(ctx, n_trees, n_var) + (depth_boundary_groups() if boundary else [])
@@ -1240,6 +1257,12 @@ def run(ctx):
 def replay(ctx, path):
     core.build_lib("plain")
     impl, ok_h, hlog = core.build_harness("outopt", "plain")
+    try:
+        import gen_outopt
+        gfacts = gen_outopt.gen_outopt()[1]
+        FX[0], TX[0], SX[0] = gfacts["cdata_sets_prevtext"], gfacts["text_method_checks_representability"], gfacts["stream_keeps_high_surrogate"]
+    except Exception:
+        pass
     lines = [l.rstrip("\n") for l in open(path) if l.strip() and not l.startswith("#")]
     rc, res, raw = core.run_lines(impl, "\n".join(lines) + "\n", timeout=600)
     bad = 0
@@ -1263,7 +1286,10 @@ def replay(ctx, path):
         elif t[0] == "T":
             evs = S4.parse_script(t[3:])
             exp, straddle = text_expected(t[2], evs)
-            okc = r_ is not None and r_.startswith("ok:") and exp is not None and bytes.fromhex(r_[3:]) == exp
+            if exp is None:
+                okc = r_ is not None and r_.startswith("err:")
+            else:
+                okc = r_ is not None and r_.startswith("ok:") and bytes.fromhex(r_[3:]) == exp
             print("   expected:", exp.hex()[:200] if exp is not None else "(an error: not representable in %s)" % t[2])
             print("   verdict :", "as the property demands" if okc else "FAILS the property", "(class K-C08-2)" if straddle else "")
             bad += 0 if okc else 1
@@ -1272,7 +1298,10 @@ def replay(ctx, path):
             if cid.startswith("zt"):
                 enc = t[5] if t[5] != "-" else (outs[-1].get("encoding", "UTF-8") if outs else "UTF-8")
                 exp, straddle = text_expected(enc, evs)
-                okc = r_ is not None and r_.startswith("ok:") and exp is not None and bytes.fromhex(r_[3:]) == exp
+                if exp is None:
+                    okc = r_ is not None and r_.startswith("err:")
+                else:
+                    okc = r_ is not None and r_.startswith("ok:") and bytes.fromhex(r_[3:]) == exp
                 print("   expected:", exp.hex()[:200] if exp is not None else "(an error: not representable in %s)" % enc)
                 print("   verdict :", "as the property demands" if okc else "FAILS the property")
                 bad += 0 if okc else 1
